@@ -78,6 +78,11 @@ class Replayer(object):
 
         for si, st in enumerate(steps):
             op, i, j, k, m, res = st["op"], st["i"], st["j"], st["k"], st["m"], st["res"]
+            pushed = st.get("pushed", True)
+
+            def keep(o, v, kd):
+                if pushed:
+                    objs.append(o), vals.append(v), kinds.append(kd)
             hist.append((op, i, j, k, m, res))
             A = objs[i - 1] if i else None
             B = objs[j - 1] if j else None
@@ -99,7 +104,7 @@ class Replayer(object):
                     R = A.to_affine()
                     if self.observed(R) != self.aff(res):
                         bad(si, "to_affine() of object %d gave %r instead of %r" % (i, self.observed(R), self.aff(res)))
-                    objs.append(R), vals.append(res), kinds.append("A")
+                    keep(R, res, "A")
                 elif op == "from_affine":
                     R = self.ec.PointJacobi.from_affine(A, bool(k))
                     objs.append(R), vals.append(res), kinds.append("G" if k else "J")
@@ -119,8 +124,7 @@ class Replayer(object):
                         bad(si, "%s on objects (%d, %d) scalars (%d, %d) returned %r, the group result is %r"
                             % (op, i, j, k, m, got, self.aff(res)))
                     if res != 0:
-                        objs.append(R), vals.append(res)
-                        kinds.append("A" if isinstance(R, self.ec.Point) and not isinstance(R, self.ec.PointJacobi) else "J")
+                        keep(R, res, "A" if isinstance(R, self.ec.Point) and not isinstance(R, self.ec.PointJacobi) else "J")
                 elif op == "eq":
                     e1, e2 = (A == B), (A != B)
                     if bool(e1) != bool(res) or bool(e2) == bool(res):
@@ -128,7 +132,9 @@ class Replayer(object):
                             % (i, vals[i - 1], j, vals[j - 1], e1, e2))
                 elif op == "pickle":
                     R = pickle.loads(pickle.dumps(A))
-                    objs.append(R), vals.append(res), kinds.append(kinds[i - 1])
+                    if self.denote(R) != self.aff(res):
+                        bad(si, "a pickled-and-restored copy of object %d denotes %r instead of %r" % (i, self.denote(R), self.aff(res)))
+                    keep(R, res, kinds[i - 1])
                 elif op == "newkey":
                     R = self.VK.from_public_point(A, self.curve)
                     objs.append(R), vals.append(res), kinds.append("K")
@@ -198,6 +204,7 @@ def replay_files(args):
             pool = st["objs"]
             if last["op"] == "new":
                 last["kind"] = pool[-1]["kind"]
+            last["pushed"] = len(pool) > prev_len
             prev_len = len(pool)
             steps.append(last)
         steps = steps[1:]
